@@ -447,7 +447,7 @@ class Large(AggBase):
 
 W = [-12.75, 7, 0.125, -3, 100, 10.5, 0.1, -0.5, 33, 2]
 P = [1, 2, 2.5, 4, 0.5, 10, 3, 0.125]
-FAMILIES = ('cyc', 'mag', 'pos', 'const', 'alt', 'dup', 'big', 'huge', 'offs', 'offs53')
+FAMILIES = ('cyc', 'mag', 'pos', 'const', 'alt', 'dup', 'big', 'huge', 'offs', 'offs53', 'offsf')
 _REL = [1e-9]       # relative tolerance of judge(); 1e-6 for the large-magnitude families (see LongLists)
 
 
@@ -470,6 +470,8 @@ def long_list(fam, n):
         return [100000000 + ((5 * i + 2) % 4 + 1) / 10.0 for i in range(n)]
     if fam == 'offs':       # whole numbers far from zero with a small spread: exact in, so exact arithmetic is possible throughout
         return [1000000000000 + (1, 2, 4, 8, 5)[(3 * i) % 5] for i in range(n)]
+    if fam == 'offsf':      # ... the same with halves (exact doubles): floats far from zero are no excuse either
+        return [1000000000000.5 + (0, 1, 3, 7, 4)[(3 * i) % 5] for i in range(n)]
     if fam == 'offs53':     # ... and beyond 2^53, where a conversion to a double loses the units
         return [2 ** 53 + (1, 2, 4, 8, 5)[(3 * i) % 5] for i in range(n)]
     raise ValueError(fam)
@@ -599,7 +601,7 @@ class Slope(Sub):
         # numerically delicate pairs: x (or y) of large magnitude and small spread
         for n in (3, 5, 8, 13):
             for fy, fx in (('alt', 'big'), ('cyc', 'huge'), ('big', 'alt'), ('huge', 'big'), ('alt', 'offs'), ('offs', 'alt'), ('alt', 'offs53'),
-                           ('offs53', 'pos')):
+                           ('offs53', 'pos'), ('offsf', 'alt'), ('offsf', 'pos'), ('cyc', 'offsf')):
                 yield ['lng', fy, fx, n]
 
     def check(self, env, case):
@@ -1147,6 +1149,12 @@ class StatSiblings(Siblings):
           'MAXIFS({0},{0},{1})', 'SUMIF({0},{1},{{10,20,30,40}})', 'AVERAGEIF({0},{1},{{10,20,30,40}})'],
          [('={3,1,4,1}', '>1'), ('={3,1,4,1}', 1), ('={3,1,4,1}', '<>1'), ('={3,1,4,1}', '>9'), ('={"ab","b","abc","a"}', 'a*'),
           ('={"ab","b","abc","a"}', '?'), ('={3,1,4,1}', '<=3')]),
+        # criteria of different kinds that compare equal in the host language (TRUE, 1, 1.0, "1" / FALSE, 0, 0.0): a table of compiled
+        # criteria keyed by equality serves the first of them for all
+        (['COUNTIF({0},{1})', 'SUMIF({0},{1},{{10,20,30,40}})', 'AVERAGEIF({0},{1},{{10,20,30,40}})', 'SUMIFS({{10,20,30,40}},{0},{1})',
+          'MAXIFS({{10,20,30,40}},{0},{1})', 'AVERAGEIFS({{10,20,30,40}},{0},{1})'],
+         [('={1,TRUE,1,"1"}', True), ('={1,TRUE,1,"1"}', 1.0), ('={1,TRUE,1,"1"}', 1), ('={1,TRUE,1,"1"}', '1'), ('={0,FALSE,0,""}', False),
+          ('={0,FALSE,0,""}', 0.0), ('={0,FALSE,0,""}', 0)]),
     ]
 
 
